@@ -17,6 +17,17 @@ CLAIMED = {
          "order, maximality, prefix-completeness, first-element refusal and a report bound on the Spec; iterator fields after every step "
          "are compared with the library on exhaustive length-skeleton buffers and random buffers.",
          "Rocq refinement proof over a read-oracle model; differential correspondence"),
+ "C17": ("Theorem c17_describe_exact: for each of the four description routines and EVERY summary value the model of the routine "
+         "(snprintf contract, tables re-read from the source on every run) stays inside the LIBWIFI_SECURITY_BUF_LEN-byte block and leaves "
+         "a NUL-terminated string shorter than the buffer that is 'None' or the comma-separated names of exactly the set flags; c17_tables / "
+         "c17_each_once: the tables are the documented flag-name association, single distinct bits, distinct names. Compared with the "
+         "library on exhaustive subsets (2^4, 2^13, 2^14; 2^21 thorough) into an exactly sized heap block.",
+         "Rocq generic invariant proof instantiated on translator-regenerated tables; differential correspondence"),
+ "C18": ("Theorem c18_shapes: for all 15 published names, 8 argument-expression shapes and ALL 16-bit operand values, the macro - expanded "
+         "token by token as the preprocessor does from the macro bodies as compiled, parsed with C precedence - is non-zero exactly when the "
+         "IEEE-assigned bit is set in the value the argument denotes; c18_values / c18_distinct: enumerators equal the IEEE bit numbers and "
+         "are pairwise distinct. The Coq expander/parser is validated against the real compiler on the same shapes and values.",
+         "Rocq proof over a token-level macro expander + C expression parser; translator-regenerated macro bodies"),
  "C19": ("Theorems c19_values / c19_distinct (every published enumerator of ten enumerations, as compiled and re-read on every run, equals the "
          "independently transcribed IEEE value; no two names of one kind share a number) and c19_lookup (for every integer the lookup is the "
          "published identifier or the unknown-tag string) over the switch table re-translated from the source; the real lookup is compared "
